@@ -105,6 +105,7 @@ def inv(v, exempt=None, cache=True, allow_empty=False):
          else v.space[0] == T.Perc(N, z3.K(Name, z3.IntVal(-1)))),
         ("I-edge.rank", z3.ForAll([i, j], z3.Implies(v.edge[i][j], z3.And(
             valid(v, i), valid(v, j), T.card(v.space[i]) < T.card(v.space[j]))))),
+        ("I-edge.sub", z3.ForAll([i, j], z3.Implies(v.edge[i][j], T.subspace(v.space[j], v.space[i])))),
         ("I-stub", z3.ForAll([i], z3.Implies(z3.And(valid(v, i), ex(i), z3.Not(v.expanded[i])),
                                              z3.And(v.succsig[i] == nosucc, z3.Not(v.skipped[i]),
                                                     z3.ForAll([j], z3.Not(v.edge[i][j])))))),
